@@ -306,10 +306,9 @@ Proof.
   assert (F12 : frame [c; p] w w2) by (eapply frame_trans; eassumption).
   match type of H with (if ?b then _ else _) = _ => destruct b end.
   - bnd H w3 H3. bnd H sh Hs. apply tok_mint_frame in H3. apply tok_mint_frame in H.
-    eapply frame_step; [exact F12 | eapply frame_step; [exact H3 | exact H | |] | |];
-      try (destruct rcv; incl_tac).
-    + instantiate (1 := p :: c :: opt_list rcv ++ [p_lp ps]). destruct rcv; incl_tac.
-    + destruct rcv; incl_tac.
+    apply (frame_step _ [c; p] (p :: c :: opt_list rcv ++ [p_lp ps]) w w2 w');
+      [exact F12 | | destruct rcv; incl_tac | auto].
+    eapply frame_step; [exact H3 | exact H | |]; destruct rcv; incl_tac.
   - apply tok_mint_frame in H.
     eapply frame_step; [exact F12 | exact H | |]; destruct rcv; incl_tac.
 Qed.
@@ -625,9 +624,9 @@ Proof. reflexivity. Qed.
 Lemma sumf_ext f g l : (forall a, In a l -> g a = f a) -> sumf g l = sumf f l.
 Proof.
   induction l as [|b l IH]; intros H; [reflexivity|]. cbn [sumf fold_right].
-  fold (sumf g l). fold (sumf f l). rewrite IH, (H b) by (intros; apply H; cbn [In]; auto).
-  - reflexivity.
-  - cbn [In]. auto.
+  fold (sumf g l). fold (sumf f l).
+  rewrite IH by (intros a Ha; apply H; cbn [In]; auto).
+  rewrite (H b) by (cbn [In]; auto). reflexivity.
 Qed.
 
 Lemma sumf_inc f g l k n : NoDup l -> In k l ->
@@ -688,9 +687,9 @@ Proof.
   destruct (asset_eqb y x) eqn:Ey.
   - apply asset_eqb_eq in Ey. subst y.
     destruct (from =? to) eqn:Eft.
-    + apply sumf_ext. intros a _. rewrite Hb, asset_eqb_refl, Eft. reflexivity.
+    + apply sumf_ext. intros a _. rewrite Hb, asset_eqb_refl. reflexivity.
     + apply N.eqb_neq in Eft. apply (sumf_transfer _ _ l from to n Hnd Hf Ht Eft Hle).
-      intros a. rewrite Hb, asset_eqb_refl. apply N.eqb_neq in Eft. rewrite Eft. reflexivity.
+      intros a. rewrite Hb, asset_eqb_refl. reflexivity.
   - apply sumf_ext. intros a _. rewrite Hb, Ey. reflexivity.
 Qed.
 
